@@ -268,6 +268,42 @@ structure PopShape where
   nanTest : NanTest
   deriving DecidableEq, Repr, Inhabited
 
+/-- how two variable *names* are compared: `==` / `in` / `list.remove` compare by value; `is` compares object
+    identity, which for strings is an accident of interning -- read as `.other` -/
+inductive NameCmp where
+  | byValue
+  | other (src : String)      -- e.g. `var is not ref_var`
+  deriving DecidableEq, Repr, Inhabited
+
+/-- the layer selection: `if data_vars: <validation only> else: data_vars = list(raster.data_vars)` and, where there
+    is a reference layer, `data_vars.remove(ref_var)` -/
+structure SelectShape where
+  ok : Bool
+  hasRef : Bool
+  /-- the explicit branch only raises on invalid arguments: `data_vars` is used as passed (order, repetitions) -/
+  explicitAsGiven : Bool
+  /-- the default branch starts from every variable of the dataset, in dataset order -/
+  defaultAll : Bool
+  /-- how the default branch recognises the reference variable that it takes out -/
+  dropRef : NameCmp
+  deriving DecidableEq, Repr, Inhabited
+
+/-- the data layers an operator works on: `names` = the dataset's variables in order, `ref` = the reference
+    variable (operators that have one), `dv` = the `data_vars` argument (`none` = left at its default).
+    An unrecognised piece selects what no theorem accepts: nothing for an unreadable branch, and a reference
+    variable compared by anything but its value is not removed. -/
+def selectS (sh : SelectShape) (names : List String) (ref : Option String) (dv : Option (List String)) : List String :=
+  match dv with
+  | some l => if sh.explicitAsGiven then l else []
+  | none =>
+    if !sh.defaultAll then [] else
+    match ref with
+    | none => names
+    | some r =>
+      match sh.dropRef with
+      | .byValue => names.erase r          -- `list.remove`: the first element equal to `r`
+      | .other _ => names
+
 def nanS : NanTest → List V → Bool
   | .anyNan, c => anyNaN c
   | .other _, _ => false
